@@ -3,18 +3,18 @@ namespace CaddyModel.Gen
 
 /-- every zap field constructor call under modules/caddyhttp/... one of whose arguments is, or is
     computed from, an http.Request / http.Header / http.Response / cookies (typed scan, go/types):
-    (function, field key, kind). kind = `wrapped` (LoggableHTTPRequest/LoggableHTTPHeader with credentials
+    (package, function, field key, kind). kind = `wrapped` (LoggableHTTPRequest/LoggableHTTPHeader with credentials
     off by default), `wrappedcred:<expr>` (the ShouldLogCredentials expression), `headerget:<name>` (a single
     named header value), `raw:<type>` (anything else). -/
-def logSites : List (String × String × String) := [
-  ("caddyhttp.ServeHTTP", "request", "wrappedcred:server-flag"),
-  ("caddyhttp.logRequest", "resp_headers", "wrappedcred:server-flag"),
-  ("fastcgi.RoundTrip", "request", "wrapped-value"),
-  ("fastcgi.RoundTrip", "request", "wrapped-value"),
-  ("push.ServeHTTP", "push_headers", "wrappedcred:server-flag"),
-  ("reverseproxy.reverseProxy", "headers", "wrappedcred:server-flag"),
-  ("reverseproxy.reverseProxy", "request", "wrappedcred:server-flag"),
-  ("rewrite.ServeHTTP", "request", "wrapped")
+def logSites : List (String × String × String × String) := [
+  ("caddyhttp", "ServeHTTP", "request", "wrappedcred:server-flag"),
+  ("caddyhttp", "logRequest", "resp_headers", "wrappedcred:server-flag"),
+  ("fastcgi", "RoundTrip", "request", "wrapped-value"),
+  ("fastcgi", "RoundTrip", "request", "wrapped-value"),
+  ("push", "ServeHTTP", "push_headers", "wrappedcred:server-flag"),
+  ("reverseproxy", "reverseProxy", "headers", "wrappedcred:server-flag"),
+  ("reverseproxy", "reverseProxy", "request", "wrappedcred:server-flag"),
+  ("rewrite", "ServeHTTP", "request", "wrapped")
 ]
 
 /-- the typed scan loaded and type-checked every package without error -/
